@@ -115,9 +115,9 @@ TEXTS = {
         'note': ('The instruction generator is covered by two theorems over ALL plan entries (no consumer position is lost; '
                  'no instruction is invented; the three vertical rewrites are the only deviations and only at position 0 '
                  'against an ADD_DEQUANTIZE producer); operand-level whole-run theorems of the performer cover untouched operands, '
-                 'in-place quantization and insertions that are not re-targeted (any number per tensor, disjoint consumer lists). '
-                 'An insertion re-targeted onto an earlier one (overlapping consumer lists) is validated '
-                 'by correspondence + oracle, not proved. Axioms: none.'),
+                 'in-place quantization, disjoint insertions and insertions re-targeted onto an enclosing earlier one (last '
+                 'instruction of a nested list). Partially overlapping consumer lists (not emitted by the generator) and the '
+                 'nestedness of generated lists are validated by correspondence + oracle, not proved. Axioms: none.'),
     },
     'C04': {
         'level': ('Theorems on the plan model with parameters as provenance terms (all models, configs, stores): every '
